@@ -60,35 +60,64 @@ def ulps(a: float, b: float) -> float:
     return abs(a - b) / max(np.spacing(max(abs(a), abs(b))), 5e-324)
 
 
+def _tok(c, i) -> str:
+    """one input token: Boolean columns (dtype bool) travel as 0/1, everything else as the bit pattern of the double"""
+    v = c[i]
+    return ("1" if v else "0") if isinstance(v, (bool, np.bool_)) else f2h(float(v))
+
+
+def _cases(columns, n=None) -> int:
+    return max((len(c) for c in columns if np.ndim(c) > 0), default=1) if n is None else n
+
+
 def run_translated(prop: str, name: str, columns: list[np.ndarray], n: int | None = None) -> list[list[str]]:
-    """`n` is needed only for a function without inputs (no column to take the number of cases from)"""
-    n = len(columns[0]) if n is None else n
+    """columns: one array per input of the translated function (0-d values are repeated for every case; Boolean arrays for
+    Boolean inputs); `n` = number of cases, needed only for a function without array inputs (default then: 1)"""
+    n = _cases(columns, n)
     if n == 0:
         return []
-    lines = [f"src_{prop}_{name} " + " ".join(f2h(float(c[i])) for c in columns) for i in range(n)]
+    columns = [np.broadcast_to(np.asarray(c), (n,)) if np.ndim(c) == 0 else np.asarray(c) for c in columns]
+    lines = [f"src_{prop}_{name} " + " ".join(_tok(c, i) for c in columns) for i in range(n)]
     return run_driver(lines)
 
 
-def compare(ctx: Ctx, prop: str, name: str, columns, real_outputs, rtol=1e-12, atol=0.0, kinds=None, transform=None, n=None):
-    """real_outputs: list of arrays (one per output of the translated function, in order).  Reports a disagreement
-    (`<prop>.src.<name>`) when the translated source at Float and the real function differ beyond rtol/atol; counts the
-    bit-identical fraction into the evidence.  kinds[j] in {None/'α', 'Bool', 'Nat'}.  `transform[j](value, i)` (optional) maps
-    output j of case i into the space in which it is well conditioned before the tolerance is applied to it (bit-identity is
-    always counted on the raw values); `n` = number of cases, needed only for a function without inputs."""
-    n = len(columns[0]) if n is None else n
+def compare(ctx: Ctx, prop: str, name: str, columns, real_outputs, rtol=1e-12, atol=0.0, kinds=None, transform=None, n=None,
+            periods=None, bool_margin=None, where=None):
+    """real_outputs: list of arrays (one per output of the translated function, in order; None = not compared).  Reports a
+    disagreement (`<prop>.src.<name>`) when the translated source at Float and the real function differ beyond rtol/atol;
+    counts the bit-identical fraction into the evidence.  kinds[j] in {None/'α', 'Bool', 'Nat'}.
+    `transform[j](value, i)` (optional) maps output j of case i into the space in which it is well conditioned before the
+    tolerance is applied to it (bit-identity is always counted on the raw values); `n` = number of cases, needed only for a
+    function without array inputs.
+    `atol` may be a list with one entry per output, each a number or an array with one tolerance per case (conditioning-aware
+    tolerances); `periods[j]` (a number) compares output j on the circle of that circumference; `bool_margin[j]` (array of
+    bool): cases where a Boolean output sits on its decision boundary within round-off and a flip is not a disagreement;
+    `where[j]` (array of bool): output j exists in the real code only for these cases (arrays the code compresses by a mask:
+    values the real code does not hand out are not compared)."""
+    n = _cases(columns, n)
     out = run_translated(prop, name, columns, n)
+    columns = [np.broadcast_to(np.asarray(c), (n,)) if np.ndim(c) == 0 else np.asarray(c) for c in columns]
     ident = 0
     worst = 0.0
     near0 = 0
+
+    def at(j, i):
+        a = atol[j] if isinstance(atol, (list, tuple)) else atol
+        return float(a[i]) if np.ndim(a) > 0 else float(a)
     for i, toks in enumerate(out):
         same = True
         for j, ro in enumerate(real_outputs):
-            r = ro[i]
+            if ro is None or (where is not None and where[j] is not None and not where[j][i]):
+                continue
+            r = ro[i] if np.ndim(ro) > 0 else ro
             if kinds and kinds[j] == "Bool":
                 m = toks[j] == "1"
                 if bool(r) != m:
-                    ctx.disagree(f"{prop}.src.{name}", {"inputs": [float(c[i]) for c in columns], "output": j, "translated": m, "code": bool(r)})
                     same = False
+                    if bool_margin is not None and bool_margin[j] is not None and bool(bool_margin[j][i]):
+                        ctx.near_boundary_skipped += 1
+                    else:
+                        ctx.disagree(f"{prop}.src.{name}", {"inputs": [float(c[i]) for c in columns], "output": j, "translated": m, "code": bool(r)})
                 continue
             if kinds and kinds[j] == "Nat":
                 if int(toks[j]) != int(r):
@@ -100,13 +129,18 @@ def compare(ctx: Ctx, prop: str, name: str, columns, real_outputs, rtol=1e-12, a
             if m != r and not (math.isnan(m) and math.isnan(r)):
                 same = False
                 tm, tr = (transform[j](m, i), transform[j](r, i)) if (transform and transform[j]) else (m, r)
-                if atol and max(abs(tm), abs(tr)) <= atol:
+                a = at(j, i)
+                if a and max(abs(tm), abs(tr)) <= a:
                     near0 += 1   # both values are zero to within `atol`: their distance in ulps says nothing
                     continue
                 u = ulps(m, r)
                 worst = max(worst, u if math.isfinite(u) else 1e300)
+                d = abs(tm - tr)
+                if periods and periods[j]:
+                    d = d % periods[j]
+                    d = min(d, periods[j] - d)
                 # (the two raw values differ: a non-finite one on either side is a disagreement, `inf <= inf` must not accept it)
-                if not (math.isfinite(tm) and math.isfinite(tr) and abs(tm - tr) <= rtol * max(abs(tm), abs(tr)) + atol):
+                if not (math.isfinite(tm) and math.isfinite(tr) and d <= rtol * max(abs(tm), abs(tr)) + a):
                     ctx.disagree(f"{prop}.src.{name}", {"inputs": [float(c[i]) for c in columns], "output": j, "translated": m, "code": r})
         ident += same
     ctx.count(f"src_{name}_cases", n)
@@ -117,3 +151,66 @@ def compare(ctx: Ctx, prop: str, name: str, columns, real_outputs, rtol=1e-12, a
     e["worst_ulps"] = max(e["worst_ulps"], worst)   # over the values that are not both zero to within `atol`
     if near0:
         e["differ_but_both_below_atol"] = e.get("differ_but_both_below_atol", 0) + near0
+
+
+def compare_split(ctx: Ctx, prop: str, name: str, columns, reducers, real_returns, real_terms=None, rtol=1e-12, atol=0.0):
+    """A translated function whose reductions were split (pytrans `reductions`): its inputs are `columns` (per-event arrays
+    and 0-d values, in parameter order) followed by one reduced value per reducer; its outputs are one term per reducer
+    followed by the returned values.
+      round 1: every event with the reduced inputs set to 0           -> the per-event terms (Float);
+      round 2: one call with reduced input k = reducers[k](terms[k])   -> the returned values,
+    which are compared with `real_returns` (what the REAL function returned; None = not compared).  `reducers` are the numpy
+    reductions of the source themselves, so bit-identical terms give bit-identical returns.  `real_terms[k]` (optional):
+    the real per-event term, where the code exposes it."""
+    nr = len(reducers)
+    n = max((len(c) for c in columns if np.ndim(c) > 0), default=0)
+    zeros = [0.0] * nr
+    terms = [np.zeros(n) for _ in range(nr)]
+    if n:
+        out = run_translated(prop, name, list(columns) + zeros, n)
+        for i, toks in enumerate(out):
+            for k in range(nr):
+                terms[k][i] = h2f(toks[k])
+    with np.errstate(all="ignore"):
+        red = [float(f(t)) for f, t in zip(reducers, terms)]
+    first = [(c[0] if (np.ndim(c) > 0 and len(c)) else (False if getattr(c, "dtype", None) == bool else 0.0) if np.ndim(c) > 0 else c) for c in columns]
+    toks = run_translated(prop, name, [np.asarray([v]) for v in first] + [np.asarray([v]) for v in red], 1)[0]
+    same = True
+    worst = 0.0
+    for j, r in enumerate(real_returns):
+        if r is None:
+            continue
+        m, r = h2f(toks[nr + j]), float(r)
+        if m != r and not (math.isnan(m) and math.isnan(r)):
+            same = False
+            u = ulps(m, r)
+            worst = max(worst, u if math.isfinite(u) else 1e300)
+            if not (abs(m - r) <= rtol * max(abs(m), abs(r)) + atol):
+                ctx.disagree(f"{prop}.src.{name}", {"return": j, "translated": m, "code": r, "events": n})
+    tsame = n
+    if real_terms is not None:
+        for k, rt in enumerate(real_terms):
+            if rt is None:
+                continue
+            rt = np.asarray(rt, dtype=np.float64)
+            bad = ~((terms[k] == rt) | (np.isnan(terms[k]) & np.isnan(rt)))
+            tsame = min(tsame, n - int(bad.sum()))
+            for i in np.nonzero(bad)[0]:
+                m, r = float(terms[k][i]), float(rt[i])
+                u = ulps(m, r)
+                worst = max(worst, u if math.isfinite(u) else 1e300)
+                if not (abs(m - r) <= rtol * max(abs(m), abs(r)) + atol):
+                    ctx.disagree(f"{prop}.src.{name}", {"term": k, "event": int(i), "translated": m, "code": r})
+    ctx.count(f"src_{name}_calls", 1)
+    ctx.count(f"src_{name}_events", n)
+    ctx.count(f"src_{name}_returns_bit_identical", int(same))
+    e = ctx.extra.setdefault("source_tie", {}).setdefault(name, {"cases": 0, "bit_identical": 0, "worst_ulps": 0.0, "events": 0})
+    e["cases"] += 1
+    e["bit_identical"] += int(same)
+    e["events"] = e.get("events", 0) + n
+    if real_terms is not None:
+        e["terms_compared"] = e.get("terms_compared", 0) + n
+        e["terms_bit_identical"] = e.get("terms_bit_identical", 0) + tsame
+    e["worst_ulps"] = max(e["worst_ulps"], worst)
+    return terms, [h2f(t) for t in toks[nr:]]
+
